@@ -15,6 +15,20 @@ CLAIMED = {
             "reference multiplier/shift (bit-exact IEEE-754 reasoning in z3 FloatingPoint + bit-vectors) and the stated error/range bounds; "
             "average-pool divisor lemma per window-size class for all accumulators below 2**30; a forall-statement tests can only sample.",
             PYVC_NOTE, "contract-based deductive verification (symbolic execution of real AST + SMT)", "DESIGN.md 3/C09"),
+    "C10": ("Unbounded proof that Box.transform_with_strides_and_skirt returns, for every OFM box, stride, skirt and IFM shape, exactly the receptive "
+            "field clipped to the IFM (start and both vertical paddings exact; end covers it and stays inside the IFM), that the padding/skirt "
+            "computation gives the SAME/VALID split with the trailing skirt covering the last window, and the rolling-buffer liveness lemma "
+            "(rows needed by a consumer stripe and rows written next never share a slot). Variants proved: no split offset, upscale 1.",
+            PYVC_NOTE + " np.subtract on 4-lists modelled element-wise on mathematical ints; stripe loops of the generator, create_padding, "
+            "split offsets and upscaling are not yet under contract in this revision.",
+            "contract-based deductive verification (symbolic execution of real AST + SMT)", "DESIGN.md 3/C10"),
+    "C15": ("Unbounded proof, for each of the distinct SHRAM configurations / six accelerators (finite, exhaustive) and all shapes, kernels, bit depths "
+            "and flags symbolic, that a layout returned by _try_block_config is ordered, non-overlapping, inside the bank count and that its "
+            "IFM / accumulator partitions double-buffer the block at the bank granule; try_block_config accepts only positive multiples of the "
+            "micro-block within the maximum block and returns exactly that layout.",
+            PYVC_NOTE + " float '/ 8' handled as exact dyadic arithmetic (exactness proved per operation); find_block_config search loop and the "
+            "public query loop are not yet under contract in this revision.",
+            "contract-based deductive verification (symbolic execution of real AST + SMT), per-accelerator instantiation", "DESIGN.md 3/C15"),
     "C17": ("Unbounded proof over all word lists (symbolic length and content) that the payload is COP1, config action, NOP padding to a "
             "16-byte boundary, a length word equal to the stream length, then the words unmodified; VelaError iff len >= 2**24. Accelerator-"
             "dependent words by exhaustive native evaluation over the finite domain (6 accelerators, all ordered pairs of calls).",
@@ -41,6 +55,6 @@ NOT_APPLICABLE = {
     "C13": "totality of the whole compiler; per-function no_exception obligations do not decide it (DESIGN 4)",
     "C14": "2-safety over process histories and global mutable state (DESIGN 4)",
     "C16": "pipeline-emergent placement and natural-language report text (DESIGN 4)",
-    "C02": PLANNED, "C04": PLANNED, "C06": PLANNED, "C08": PLANNED, "C10": PLANNED,
-    "C15": PLANNED, 
+    "C02": PLANNED, "C04": PLANNED, "C06": PLANNED, "C08": PLANNED, 
+    
 }
